@@ -104,7 +104,7 @@ func runIndexerImpl(p *IndexerPlan) error {
 	const wait = 3 * time.Second
 	switch p.Scenario {
 	case "quit-rebroadcast":
-		// TLC's schedule (FilterSystem.tla, WithIndexer, Known = {D20}): the index loop is busy while Stop()
+		// TLC's schedule (FilterSystem.tla, WithIndexer, Known = {D27}): the index loop is busy while Stop()
 		// closes Quit; the header loop takes its Quit case and re-broadcasts into the 1-slot channel;
 		// the index loop comes back to its first select, takes its Quit case too and sends again.
 		comet.headers <- hdrEvent(2)
